@@ -419,3 +419,8 @@ def _working_fno(finite):
 
 _working_fno(True)
 _working_fno(False)
+
+
+# concrete inputs found by the defect-hunting sub-agents (bounded replay, see contracts/hunt.py)
+from . import hunt as _hunt  # noqa: E402
+_hunt.register('C11')
